@@ -1,9 +1,12 @@
 package in_toto
 
 import (
+	"crypto/sha256"
+	"encoding/base64"
 	"encoding/json"
 	"fmt"
 	"os"
+	"strings"
 	"testing"
 	"time"
 )
@@ -263,9 +266,7 @@ func TestVerifRace(t *testing.T) {
 		fl, _ := fin.GetPayload().(Link)
 		return vRender(len(l.Materials)) + vRender(len(l.Products)) + vRender(l.Products["sub/real.txt"]["sha256"]) + vRender(len(fl.Products)) + vRender(len(sharedExcludes)) + vRender(len(md.Sigs()))
 	}
-	all := func(i int) string {
-		return dumpLoad(i) + record(i) + signVerify(i) + dsse(i) + rules(i) + runStep(i)
-	}
+	all := func(i int) string { return dumpLoad(i) + record(i) + signVerify(i) + dsse(i) + rules(i) }
 	// the concurrent phase comes first, so that lazily filled package-level state is still cold
 	conc := make([][]string, n)
 	start := make(chan struct{})
@@ -288,6 +289,76 @@ func TestVerifRace(t *testing.T) {
 		for _, got := range conc[i] {
 			if got != seq {
 				t.Errorf("goroutine %d: concurrent result %q differs from sequential %q", i, got, seq)
+				break
+			}
+		}
+	}
+	// a phase of its own for the largest in-memory operation (a DSSE payload of some hundred kilobytes is
+	// canonicalised, escaped and encoded): more goroutines than cores are not needed, but long operations are -
+	// scratch memory shared between calls is only visible while two of them overlap
+	bigDsse := func(i int) string {
+		var sb strings.Builder
+		for j := 0; j < 6000; j++ {
+			sb.WriteString(fmt.Sprintf("line %d of functionary %d\n\t\x1b[0m", j, i))
+		}
+		e := &Envelope{}
+		if err := e.SetPayload(Link{Type: "link", Name: fmt.Sprintf("n%d", i), ByProducts: map[string]interface{}{"stdout": sb.String()}}); err != nil {
+			return "setpayload error"
+		}
+		raw, err := base64.StdEncoding.DecodeString(e.envelope.Payload)
+		if err != nil {
+			return "payload is not base64"
+		}
+		sum := sha256.Sum256(raw)
+		return fmt.Sprintf("%d %x", len(raw), sum[:8])
+	}
+	const nBig = 8
+	concBig := make([][]string, nBig)
+	startBig := make(chan struct{})
+	doneBig := make(chan int, nBig)
+	for i := 0; i < nBig; i++ {
+		go func(i int) {
+			<-startBig
+			for r := 0; r < 25; r++ {
+				concBig[i] = append(concBig[i], bigDsse(i))
+			}
+			doneBig <- i
+		}(i)
+	}
+	close(startBig)
+	for i := 0; i < nBig; i++ {
+		<-doneBig
+	}
+	for i := 0; i < nBig; i++ {
+		seq := bigDsse(i)
+		for _, got := range concBig[i] {
+			if got != seq {
+				t.Errorf("goroutine %d: concurrent payload %q differs from sequential %q", i, got, seq)
+				break
+			}
+		}
+	}
+	// another phase: whole steps (they start processes, so fewer rounds) sharing one configuration
+	concRun := make([][]string, n)
+	start2 := make(chan struct{})
+	for i := 0; i < n; i++ {
+		go func(i int) {
+			<-start2
+			for r := 0; r < 6; r++ {
+				concRun[i] = append(concRun[i], runStep(i))
+			}
+			done <- i
+		}(i)
+	}
+	close(start2)
+	for i := 0; i < n; i++ {
+		<-done
+	}
+	for i := 0; i < n; i++ {
+		seq := runStep(i)
+		for _, got := range concRun[i] {
+			if got != seq {
+				t.Errorf("goroutine %d: concurrent step result %q differs from sequential %q", i, got, seq)
 				break
 			}
 		}
